@@ -44,6 +44,7 @@ THEOREMS = {
     "mutual-exclusion": "Asynkit.C14.wait_exit_holds_lock (lock abstraction)",
     "release-by-non-owner": "Asynkit.C14.wait_exit_holds_lock",
     "exception-identity": "Asynkit.C14.exception_identity",
+    "exception-swallowed": "Asynkit.C14.exception_identity (the model's `outcome`: a caught/pending exception is re-raised)",
     "foreign-exception": "Asynkit.C14.exception_identity",
     "notify-order": "Asynkit.C14.notify_order",
     "lost-notification": "Asynkit.C14.notify_not_lost",
@@ -110,7 +111,7 @@ def make_chooser(rng, length):
             kind = "cancel"
         if kind == "cancel":
             return ["cancel", t]
-        return [kind, t, rng.choice(["I", "T", "S"])]
+        return [kind, t, rng.choice(["I", "T", "S", "F"])]
 
     return choose
 
